@@ -42,6 +42,22 @@ def go_env():
     return env
 
 
+def sync_go_sum():
+    """harness/go.sum must equal /repo/go.sum; replace it atomically and only when it differs
+    (several checks may build at the same time)."""
+    src, dst = os.path.join(REPO, 'go.sum'), os.path.join(HARNESS, 'go.sum')
+    want = open(src, 'rb').read()
+    try:
+        if open(dst, 'rb').read() == want:
+            return
+    except OSError:
+        pass
+    tmp = '%s.%d.tmp' % (dst, os.getpid())
+    with open(tmp, 'wb') as f:
+        f.write(want)
+    os.replace(tmp, dst)
+
+
 class TLCResult:
     def __init__(self, out, rc, wall):
         self.out, self.rc, self.wall = out, rc, wall
@@ -77,7 +93,7 @@ class TLCResult:
     def coverage_zero(self):
         """Names of actions with zero count in a -coverage run."""
         zeros = []
-        for m in re.finditer(r'^<(\w+) line \d+, col \d+ to line \d+, col \d+ of module (\w+)>: (\d+):(\d+)', self.out, re.M):
+        for m in re.finditer(r'^<(\w+) line \d+, col \d+ to line \d+, col \d+ of module (\w+)(?: \([^)]*\))?>: (\d+):(\d+)', self.out, re.M):
             if int(m.group(4)) == 0 and int(m.group(3)) == 0:
                 zeros.append(m.group(2) + '!' + m.group(1))
         return sorted(set(zeros))
@@ -120,7 +136,7 @@ class Ctx:
     def go_build(self, *cmds, race=False):
         """Build harness commands against /repo's current working tree (tag verif)."""
         env = go_env()
-        shutil.copy(os.path.join(REPO, 'go.sum'), os.path.join(HARNESS, 'go.sum'))
+        sync_go_sum()
         outs = []
         bindir = self.sub('bin')
         for c in cmds:
